@@ -201,7 +201,7 @@ def run_property(chk, pid, P):
 
     # --- abstract layer: the property's invariants on the ideal mechanism (must hold) and on ideal + one deviation at a time
     for c in P["cfgs"]:
-        cs = consts(c["objs"], c["maxsp"], c["ideal_depth"], c["eoc"], c["acts"], [])
+        cs = consts(c["objs"], c["maxsp"], c["ideal_depth"], c["eoc"], c["acts"], [], vals=c.get("vals", (0, 1)))
         jobs.append(("ideal", c["name"], None, pool.submit(
             tlc.run, SPEC, mk_cfg(cs, P["abs_invs"] + P["mech_invs"], P["abs_props"] + P["mech_props"]), wd("ideal"),
             workers=max(2, tlc.NPROC // 4), timeout=1500, keep_stdout=True, heap="4g")))
@@ -214,7 +214,7 @@ def run_property(chk, pid, P):
 
     # --- mechanism layer: graph with the deviations the code shows, every edge replayed
     for c in P["cfgs"]:
-        cs = consts(c["objs"], c["maxsp"], c["depth"], c["eoc"], c["acts"], dev_real & known_devs)
+        cs = consts(c["objs"], c["maxsp"], c["depth"], c["eoc"], c["acts"], dev_real & known_devs, vals=c.get("vals", (0, 1)))
         tg = time.time()
         g = graph.dump(SPEC, mk_cfg(cs, P["mech_invs"], P["mech_props"], emit=True), wd("graph"), timeout=3000, heap="6g")
         r = g.tlc
